@@ -536,7 +536,8 @@ class Impl:
         if name == 'let_name':
             return self._h(m, a.let({vname(k): vname(v) for k, v in args[0].items()}, F(args[1])))
         if name == 'quantify':
-            return self._h(m, a.quantify(F(args[0]), [vname(k) for k in args[1]], args[2]))
+            # (a one-shot iterator: `qvars` is documented as an iterable)
+            return self._h(m, a.quantify(F(args[0]), (vname(k) for k in args[1]), args[2]))
         if name == 'cube':
             return self._h(m, a.cube({vname(k): v for k, v in args[0].items()}))
         if name == 'find_or_add':
@@ -766,7 +767,9 @@ class Impl:
         return b.cofactor(u, _dict(kind, values))
 
     def op_quantify(self, b, u, kind, q, fa):
-        return b.quantify(u, _keys(kind, q), forall=fa)
+        # a one-shot iterator: `qvars` is documented as an iterable, and the
+        # call may be retried after a dynamic reordering
+        return b.quantify(u, iter(list(_keys(kind, q))), forall=fa)
 
     def op_compose(self, b, u, sub):
         return b.compose(u, {vname(k): g for k, g in sub.items()})
